@@ -122,10 +122,17 @@ def run_mapping(
     for pth in (output_path, log_path):
         if pth is not None:
             if not pth.exists():
+                # if pth is a dangling symbolic link, probe (and clean
+                # up) the location the output will really be written to;
+                # unlinking pth itself would remove the link and leave
+                # the probe file behind at its target
+                probe_pth = pth
+                if pth.is_symlink():
+                    probe_pth = pth.resolve()
                 try:
-                    with open(pth, 'w') as out_file:
+                    with open(probe_pth, 'w') as out_file:
                         out_file.write('junk')
-                    pth.unlink()
+                    probe_pth.unlink()
                 except FileNotFoundError:
                     raise RuntimeError(
                         "unable to write to "
